@@ -413,11 +413,14 @@ func (self Node) Index(idx int) (v Node) {
 	}
 
 	// when lazy load, size = 0, use it.k which is counted after it.Next() to check valid idx
-	if idx > it.k {
+	if idx > it.k || !it.HasNext() {
 		return errNode(meta.ErrInvalidParam, fmt.Sprintf("index '%d' is out of range", idx), nil)
 	}
 
 	s, e = it.Next(UseNativeSkipForGet)
+	if it.Err != nil {
+		return errNode(meta.ErrRead, "", it.Err)
+	}
 	v = self.slice(s, e, self.et)
 	return v
 }
